@@ -215,6 +215,9 @@ func TestWorker(t *testing.T) {
 		}
 		if out.Inconclusive != "" {
 			sum.Inconcl++
+			if os.Getenv("VERIF_DEBUG") != "" {
+				fmt.Fprintf(os.Stderr, "run %d inconclusive: %s\n", idx, out.Inconclusive)
+			}
 		}
 		sum.Steps += out.Steps
 		sum.SimMs += out.SimMs
